@@ -210,7 +210,7 @@ def run_task(task):
 
 
 def plan(tier, seed):
-    total = 160 if tier == "quick" else 2400
+    total = 400 if tier == "quick" else 2400
     W = 16
     return [{"n": total // W, "seed": seed * 1000 + w, "shrink": 40 if tier == "quick" else 300}
             for w in range(W)]
